@@ -1,8 +1,109 @@
 import AFV.Driver.Proto
+import AFV.Model.Compress
 namespace AFV.Driver.C15
-open Lean AFV.Proto
+open Lean AFV.Proto AFV.Compress
 
-/-- Handler for property C15 requests (stub: not implemented yet). -/
-def handle (_req : Json) : Json := err "unimplemented"
+/-! Cell values are canonical strings produced by the harness: `n:<p>/<q>` exact numbers,
+`n:inf`, `n:-inf`, `s:<text>`.  The only value-level operation is pandas' int64 → float64 conversion
+of a NaN-filled column, which can change integers (`n:<p>/1`) beyond ±2^53. -/
+
+/-- `conv` on tokens: float64 rounding of integer tokens, identity on everything else
+(non-integers are already float cells; text stays text). -/
+def tokConv (t : String) : String :=
+  if t.startsWith "n:" && t.endsWith "/1" then
+    match ((t.drop 2).dropEnd 2).toInt? with
+    | some i => "n:" ++ toString (roundF64 i) ++ "/1"
+    | none => t
+  else t
+
+private def cell? (j : Json) : Option (String × String) := do
+  let a ← getArr? j
+  if a.size != 2 then none else
+  let c ← getStr? a[0]!
+  let v ← getStr? a[1]!
+  pure (c, v)
+
+private def row? (j : Json) : Option (Row String) := do
+  let a ← getArr? j
+  a.toList.mapM cell?
+
+private def table? (j : Json) : Option (Table String) := do
+  let a ← getArr? j
+  a.toList.mapM row?
+
+private def einsum? (j : Json) : Option (String × List (Table String)) := do
+  let a ← getArr? j
+  if a.size != 2 then none else
+  let e ← getStr? a[0]!
+  let ts ← getArr? a[1]!
+  let ts ← ts.toList.mapM table?
+  pure (e, ts)
+
+private def idxCell? (j : Json) : Option (String × Nat) := do
+  let a ← getArr? j
+  if a.size != 2 then none else
+  let e ← getStr? a[0]!
+  let k ← getNat? a[1]!
+  pure (e, k)
+
+private def jrow? (j : Json) : Option (JRow String) := do
+  let cells ← (field? j "cells").bind row?
+  let idx ← (field? j "idx").bind getArr?
+  let idx ← idx.toList.mapM idxCell?
+  pure { cells := cells, idx := idx }
+
+private def ofRow (r : Row String) : Json :=
+  Json.arr (r.map (fun c => Json.arr #[Json.str c.1, Json.str c.2])).toArray
+
+private def ofRows (rs : List (Row String)) : Json := Json.arr (rs.map ofRow).toArray
+
+private def ofErr : Err → String
+  | .keyError => "KeyError"
+  | .stopIteration => "StopIteration"
+  | .assertion => "AssertionError"
+  | .noObjects => "ValueError"
+
+private def ofCTable (t : List (CRow String)) : Json :=
+  Json.arr (t.map (fun r => Json.mkObj [("keep", ofRow r.keep), ("idx", ofNat r.idx)])).toArray
+
+/-- ops:
+  {"op":"roundtrip","joining":[col,…],"e2p":[[einsum,[table,…]],…],"rows":[{"cells":row,"idx":[[einsum,k],…]},…]}
+      table = [row,…], row = [[col,val],…]
+      → {"compressed":[[einsum,[[{"keep":row,"idx":k},…],…]],…],
+         "keys":[[einsum,[start,…]],…],                      (dict keys in insertion order)
+         "model":{"ok":[row,…]} | {"error":name},             (decompress ∘ compress, the algorithm, with
+                                                               the int64→float64 conversion of NaN-filled columns)
+         "spec":[row,…]}                                      (reference semantics)
+  {"op":"classify","parts":[s,…]} → true | false | "raise"   (col_used_in_joining) -/
+def handle (req : Json) : Json :=
+  match (field? req "op").bind getStr? with
+  | some "roundtrip" =>
+    match (field? req "joining").bind strList?, (field? req "e2p").bind getArr?,
+          (field? req "rows").bind getArr? with
+    | some jcols, some e2p, some rows =>
+      match e2p.toList.mapM einsum?, rows.toList.mapM jrow? with
+      | some e2p, some rows =>
+        let joining : String → Bool := fun c => jcols.contains c
+        let (comp, dd) := compressAll joining e2p
+        let model := match decompress tokConv dd rows with
+          | .ok out => Json.mkObj [("ok", ofRows out)]
+          | .error e => Json.mkObj [("error", Json.str (ofErr e))]
+        Json.mkObj [
+          ("compressed", Json.arr (comp.map (fun p =>
+            Json.arr #[Json.str p.1, Json.arr (p.2.map ofCTable).toArray])).toArray),
+          ("keys", Json.arr (dd.map (fun p =>
+            Json.arr #[Json.str p.1, ofNatList (p.2.map (·.1))])).toArray),
+          ("model", model),
+          ("spec", ofRows (rows.map (specRow joining e2p)))]
+      | _, _ => err "malformed"
+    | _, _, _ => err "malformed"
+  | some "classify" =>
+    match (field? req "parts").bind strList? with
+    | some parts =>
+      match colUsedInJoining parts with
+      | some b => Json.bool b
+      | none => Json.str "raise"
+    | none => err "malformed"
+  | _ => err "bad-op"
 
 end AFV.Driver.C15
